@@ -17,6 +17,7 @@ EXPLANATION = (
     "module_slots key inside ModuleGraph's read-only public API (T4/T12: all siblings must derive the key from "
     "ModuleGraph::resolve), and arm tables of the lookup functions (T8)."
 )
+EXPLANATION += " " + 'Plus: the loop is left early only at the hop cap (polarity), entries created while dispatching a load are filed under the redirect-mapped specifier.'
 NOT_DECIDED = "agreement of each lookup's result with the walk for all graphs; idempotence of resolve for chains longer than its internal cap"
 CONFIGS = ["default", "nofastcheck"]  # thorough tier also analyses the build without fast_check / symbols
 ASSUMPTIONS = ["HashSet::insert returns false exactly when the element is present"]
